@@ -234,4 +234,12 @@ for j in req["jobs"]:
     except Exception as e:
         r = {"error": "%s: %s" % (type(e).__name__, str(e)[:300]), "trace": traceback.format_exc()[-1200:]}
     res.append(r)
+    if j["op"] == "pipeline":
+        # drop the executables of this model before compiling the next one
+        try:
+            jax.clear_caches()
+        except Exception:
+            pass
+        import gc
+        gc.collect()
 json.dump({"jobs": res}, sys.stdout)
